@@ -234,6 +234,10 @@ def sec_unitary_values(ctx, rng, case):
         # values given as bare matrices are decomposed by numerical synthesis (KAK / three-qubit cosine-sine), whose
         # reconstruction error at the default atol is the one C15 allows those routines (1e-5), not rounding size
         dtol = 1e-5 if ("matrix" in spec.tags or "custom" in spec.tags) and len(spec.shape) >= 2 else 1e-6
+        if any(w_.startswith("controlled_by") for w_ in desc):
+            # controlled values decompose through the multi-controlled-rotation synthesis, which leaves out factors that
+            # np.allclose takes for the identity (up to ~1e-5 each; C15 allows that routine 1e-4)
+            dtol = max(dtol, 1e-4)
         if insensitive:
             ok = L.phase_equal(M, E, dtol)
         else:
